@@ -439,7 +439,11 @@ LEVEL_TEXT = ('Lean 4 theorems about the assembled model of engine(text) (lexer 
               'outcome (C03Lex.conversions_total). Tie to the code: the real parser and the compiled model classify the same '
               'generated texts identically (class, position, and the tree when accepted) on three engines; the oracle on the '
               'real code alone is: no foreign exception, position inside the text, termination - also while another thread '
-              'parses on the same engine.')
+              'parses on the same engine. Round 5: C03Bound.tokens_printable / grammar_error_value_printable - every token the parser '
+              'is given, at any position of any text, carries a value that can be formatted into the error message (integers below '
+              '10^maxDigits; longer numerals never become tokens); texts put boundary-size tokens (digit limit, double range, 5000-'
+              'character words and strings) into every syntactic position, say every part twice, and enumerate the argument-list '
+              'grammar on all engine flavours.')
 LEVEL_NOTE = ("trusted: Lean kernel; ply's LALR(1) table construction and master-regex dispatch (the model reproduces their "
               "documented effect; equivalence is differential); CPython re/codecs/int/float conversions (\\N{..} names and "
               "the int digit limit are passed to the model as data); lone surrogates are outside the model (Lean Char) and "
